@@ -51,6 +51,7 @@ EXPECTED_PROBES = [
     "cache_hit",
     "cached_nxdomain_skipped_candidate",
     "three_or_more_candidates",
+    "lookup_in_another_class",
     "chain_length_15",
     "chain_length_16_plus",
     "small_backward_clock_step",
@@ -204,6 +205,16 @@ def gen_case(seed, tier):
                 "gap": rng.choice([0.0, 0.5, 2.0, 40.0]),
             }
         )
+        if len(resolutions) > 1 and rng.random() < 0.5:
+            # ask again for what was asked before (cache hits, cached negative answers)
+            resolutions[-1]["qname"] = resolutions[-2]["qname"]
+            if rng.random() < 0.6:
+                resolutions[-1]["rdtype"] = resolutions[-2]["rdtype"]
+            resolutions[-1]["gap"] = rng.choice([0.0, 0.0, 0.5, 2.0, 40.0])
+        if rng.random() < 0.15:
+            # a lookup in another class (the cache is keyed by class too)
+            resolutions[-1]["rdclass"] = "CH"
+            resolutions[-1]["rdtype"] = rng.choice(["TXT", "TXT", "CNAME"])
     return {"prop": PROP, "seed": seed, "tier": "A", "cfg": cfg, "scripts": scripts, "defaults": defaults, "resolutions": resolutions}
 
 
@@ -234,6 +245,7 @@ def build_response(request, o, idx, tcp):
     dns = _d
     k = o["k"]
     q = request.question[0]
+    cls = dns.rdataclass.to_text(q.rdclass)
     if k == "exc_formerror":
         return dns.exception.FormError("scripted")
     if k == "exc_badresponse":
@@ -260,13 +272,13 @@ def build_response(request, o, idx, tcp):
         else:
             for i in range(o["len"]):
                 tgt = dns.name.from_text(f"c{i}.chain.test.")
-                r.answer.append(dns.rrset.from_text(name, o["cttl"], "IN", "CNAME", tgt.to_text()))
+                r.answer.append(dns.rrset.from_text(name, o["cttl"], cls, "CNAME", tgt.to_text()))
                 name = tgt
             if o["final"]:
                 _add_answer(r, name, q, o["ttl"], idx)
             else:
                 if o.get("soa") is not None:
-                    r.authority.append(dns.rrset.from_text(dns.name.from_text("chain.test."), o["soa"][0], "IN", "SOA", f"ns. host. 1 2 3 4 {o['soa'][1]}"))
+                    r.authority.append(dns.rrset.from_text(dns.name.from_text("chain.test."), o["soa"][0], cls, "SOA", f"ns. host. 1 2 3 4 {o['soa'][1]}"))
                 if o.get("nx"):
                     r.set_rcode(dns.rcode.NXDOMAIN)
     elif k == "cname_loop":
@@ -274,8 +286,8 @@ def build_response(request, o, idx, tcp):
             _add_answer(r, q.name, q, 60, idx)
         else:
             other = dns.name.from_text("loop.chain.test.")
-            r.answer.append(dns.rrset.from_text(q.name, 60, "IN", "CNAME", other.to_text()))
-            r.answer.append(dns.rrset.from_text(other, 60, "IN", "CNAME", q.name.to_text()))
+            r.answer.append(dns.rrset.from_text(q.name, 60, cls, "CNAME", other.to_text()))
+            r.answer.append(dns.rrset.from_text(other, 60, cls, "CNAME", q.name.to_text()))
     elif k == "two_questions":
         r.question.append(dns.rrset.RRset(dns.name.from_text("second.question.test."), dns.rdataclass.IN, dns.rdatatype.A))
         _add_answer(r, q.name, q, 60, idx)
@@ -309,12 +321,13 @@ def build_response(request, o, idx, tcp):
 
 def _add_answer(r, name, q, ttl, idx):
     dns = _d
+    cls = dns.rdataclass.to_text(q.rdclass)
     if q.rdtype == dns.rdatatype.A:
-        r.answer.append(dns.rrset.from_text(name, ttl, "IN", "A", f"10.9.{idx}.1", f"10.9.{idx}.2"))
+        r.answer.append(dns.rrset.from_text(name, ttl, cls, "A", f"10.9.{idx}.1", f"10.9.{idx}.2"))
     elif q.rdtype == dns.rdatatype.TXT:
-        r.answer.append(dns.rrset.from_text(name, ttl, "IN", "TXT", f'"from-ns{idx}"'))
+        r.answer.append(dns.rrset.from_text(name, ttl, cls, "TXT", f'"from-ns{idx}"'))
     else:
-        r.answer.append(dns.rrset.from_text(name, ttl, "IN", "CNAME", "real.target.test."))
+        r.answer.append(dns.rrset.from_text(name, ttl, cls, "CNAME", "real.target.test."))
 
 
 def _add_soa(r, qname, soa):
@@ -322,7 +335,8 @@ def _add_soa(r, qname, soa):
     if soa is None:
         return
     owner = qname.parent() if len(qname) > 1 else qname
-    r.authority.append(dns.rrset.from_text(owner, soa[0], "IN", "SOA", f"ns. host. 1 2 3 4 {soa[1]}"))
+    cls = dns.rdataclass.to_text(r.question[0].rdclass)
+    r.authority.append(dns.rrset.from_text(owner, soa[0], cls, "SOA", f"ns. host. 1 2 3 4 {soa[1]}"))
 
 
 def plan(o, request, timeout, tcp, idx):
@@ -362,7 +376,8 @@ def make_ns_class():
         def _begin(self, request, timeout, max_size):
             w = self.world
             o = w.next_outcome(self.idx)
-            w.trace.append(("q", self.idx, request.question[0].name.to_text(), bool(max_size), round(VT.now - w.t0, 6), round(timeout, 6)))
+            q0 = request.question[0]
+            w.trace.append(("q", self.idx, q0.name.to_text() + ("" if q0.rdclass == dns.rdataclass.IN else "/" + dns.rdataclass.to_text(q0.rdclass)), bool(max_size), round(VT.now - w.t0, 6), round(timeout, 6)))
             w.consumed.append(o["k"])
             return o, plan(o, request, timeout, bool(max_size), self.idx)
 
@@ -451,7 +466,7 @@ def run_world(case, is_async):
         VT.jump(res["gap"])
         world.trace = []
         world.t0 = VT.now
-        kw = dict(rdtype=res["rdtype"], tcp=res["tcp"], raise_on_no_answer=res["raise_on_no_answer"], lifetime=res["lifetime"], search=res["search"])
+        kw = dict(rdtype=res["rdtype"], rdclass=res.get("rdclass", "IN"), tcp=res["tcp"], raise_on_no_answer=res["raise_on_no_answer"], lifetime=res["lifetime"], search=res["search"])
         try:
             if is_async:
                 backend = dns.asyncbackend.get_backend("asyncio")
@@ -568,6 +583,10 @@ def model_run(case, res_states=None):
             probes.append("three_or_more_candidates")
         nx_count = 0
         rdtype = res["rdtype"]
+        cls = res.get("rdclass", "IN")
+        csfx = "" if cls == "IN" else "/" + cls
+        if cls != "IN":
+            probes.append("lookup_in_another_class")
 
         def cache_get(key):
             if cache is None:
@@ -582,7 +601,7 @@ def model_run(case, res_states=None):
         try:
             for ci, cand in enumerate(cands):
                 # cache
-                hit = cache_get((cand.lower(), rdtype))
+                hit = cache_get((cand.lower(), rdtype, cls))
                 if hit is not None:
                     probes.append("cache_hit")
                     if hit["rrset"] is False and res["raise_on_no_answer"]:
@@ -591,7 +610,7 @@ def model_run(case, res_states=None):
                         break
                     result = ("answerc", hit)
                     break
-                hit = cache_get((cand.lower(), "ANY"))
+                hit = cache_get((cand.lower(), "ANY", cls))
                 if hit is not None and hit["nx"]:
                     probes.append("cached_nxdomain_skipped_candidate")
                     nx_count += 1
@@ -635,7 +654,7 @@ def model_run(case, res_states=None):
                         raise _MExc("LifetimeTimeout")
                     timeout = min(lifetime - duration, cfg["timeout"])
                     o = next_outcome(cur)
-                    trace.append(("q", cur, cand, tcp, round(now - t0, 6), round(timeout, 6)))
+                    trace.append(("q", cur, cand + csfx, tcp, round(now - t0, 6), round(timeout, 6)))
                     k = o["k"]
                     dt = o.get("dt", 0.0)
                     timed_out = k == "timeout" or dt >= timeout
@@ -657,7 +676,7 @@ def model_run(case, res_states=None):
                     if k == "cname" and rdtype != "CNAME" and not o["final"] and o.get("nx") and o["len"] < MAX_CHAIN:
                         kind, ttl = _m_min_ttl(o, rdtype)
                         if cache is not None:
-                            cache[(cand.lower(), "ANY")] = {"qname": cand, "exp": now + ttl, "rrset": False, "nx": True, "o": o, "ns": cur, "rdtype": "ANY"}
+                            cache[(cand.lower(), "ANY", cls)] = {"qname": cand, "exp": now + ttl, "rrset": False, "nx": True, "o": o, "ns": cur, "rdtype": "ANY", "cls": cls}
                         nx_count += 1
                         probes.append("nxdomain_at_end_of_cname_chain")
                         done = True
@@ -675,9 +694,9 @@ def model_run(case, res_states=None):
                         if kind == "broken":
                             servers.remove(cur)
                             continue
-                        ans = {"qname": cand, "exp": now + ttl, "rrset": kind == "answer", "nx": False, "o": o, "ns": cur, "rdtype": rdtype}
+                        ans = {"qname": cand, "exp": now + ttl, "rrset": kind == "answer", "nx": False, "o": o, "ns": cur, "rdtype": rdtype, "cls": cls}
                         if cache is not None:
-                            cache[(cand.lower(), rdtype)] = ans
+                            cache[(cand.lower(), rdtype, cls)] = ans
                         if kind != "answer" and res["raise_on_no_answer"]:
                             probes.append("no_answer")
                             raise _MExc("NoAnswer")
@@ -687,7 +706,7 @@ def model_run(case, res_states=None):
                     if k == "nxdomain":
                         kind, ttl = _m_min_ttl(o, rdtype)
                         if cache is not None:
-                            cache[(cand.lower(), "ANY")] = {"qname": cand, "exp": now + ttl, "rrset": False, "nx": True, "o": o, "ns": cur, "rdtype": "ANY"}
+                            cache[(cand.lower(), "ANY", cls)] = {"qname": cand, "exp": now + ttl, "rrset": False, "nx": True, "o": o, "ns": cur, "rdtype": "ANY", "cls": cls}
                         nx_count += 1
                         done = True
                         continue
@@ -733,12 +752,13 @@ def _expected_rrset_text(ans, idx_unused=None):
     if o["k"] == "cname" and rdtype != "CNAME":
         name = dns.name.from_text(f"c{o['len'] - 1}.chain.test.")
     ttl = o.get("ttl", 300)
+    cls = ans.get("cls", "IN")
     if rdtype == "A":
-        rr = dns.rrset.from_text(name, ttl, "IN", "A", f"10.9.{ns}.1", f"10.9.{ns}.2")
+        rr = dns.rrset.from_text(name, ttl, cls, "A", f"10.9.{ns}.1", f"10.9.{ns}.2")
     elif rdtype == "TXT":
-        rr = dns.rrset.from_text(name, ttl, "IN", "TXT", f'"from-ns{ns}"')
+        rr = dns.rrset.from_text(name, ttl, cls, "TXT", f'"from-ns{ns}"')
     else:
-        rr = dns.rrset.from_text(name, ttl, "IN", "CNAME", "real.target.test.")
+        rr = dns.rrset.from_text(name, ttl, cls, "CNAME", "real.target.test.")
     return name, _norm(rr.to_text())
 
 
@@ -778,15 +798,14 @@ def compare_with_model(case, real, model, world_name):
             raise Violation("C16:timing", f"{tag}: took {r['end']}s of simulated time, documented behaviour {m['end']}s")
         # cache contents
         if m["cache"] is not None:
-            mk = sorted((k[0], k[1]) for k in m["cache"].keys())
-            rk = sorted((c[0].lower(), _d.rdatatype.to_text(c[1])) for c in r["cache"])
+            rkey = lambda c: (c[0].lower(), _d.rdatatype.to_text(c[1]), _d.rdataclass.to_text(c[2]))  # noqa: E731
             # the real caches may have dropped expired entries (LRU get) or kept them (plain): compare live ones
             nowm = m["now"]
             # entries expiring exactly now are borderline under float accumulation: leave them out
-            border = set((k[0], k[1]) for k, v in m["cache"].items() if abs(v["exp"] - nowm) < 1e-6)
-            border |= set((c[0].lower(), _d.rdatatype.to_text(c[1])) for c in r["cache"] if abs(c[3] - nowm) < 1e-6)
-            ml = sorted((k[0], k[1]) for k, v in m["cache"].items() if v["exp"] > nowm and (k[0], k[1]) not in border)
-            rl = sorted(x for x in ((c[0].lower(), _d.rdatatype.to_text(c[1])) for c in r["cache"] if c[3] > nowm) if x not in border)
+            border = set(tuple(k) for k, v in m["cache"].items() if abs(v["exp"] - nowm) < 1e-6)
+            border |= set(rkey(c) for c in r["cache"] if abs(c[3] - nowm) < 1e-6)
+            ml = sorted(tuple(k) for k, v in m["cache"].items() if v["exp"] > nowm and tuple(k) not in border)
+            rl = sorted(x for x in (rkey(c) for c in r["cache"] if c[3] > nowm) if x not in border)
             if ml != rl:
                 raise Violation("C16:cache-keys", f"{tag}: live cache keys {rl}, documented {ml}")
 
@@ -1185,6 +1204,10 @@ def shrink(case):
                 c = copy.deepcopy(case)
                 c["resolutions"][i][key] = simple
                 yield c
+        if r.get("rdclass", "IN") != "IN":
+            c = copy.deepcopy(case)
+            del c["resolutions"][i]["rdclass"]
+            yield c
 
 
 def known_match(finding, case, violation):
